@@ -11,6 +11,8 @@
 import Drv.Util
 import Nq.Spec.SmtpPolicy
 import Nq.Spec.SmtpPolicyDoc
+import Nq.Spec.SmtpAddrParse
+import Nq.SmtpFlush
 import Nq.Spec.CmdLine
 import Nq.SmtpCmdIO
 
@@ -145,7 +147,21 @@ def handleA (ds : DState) (st : Stats) (cfgid argh okS addrh bmfS allowedS : Str
       IO.println s!"DISAGREE mode=A cfg={cfgid} in={argh} impl={okS} {addrh} {bmfS} {allowedS} model={ms}"
       st := { st with disagree := st.disagree + 1 }
     -- oracle on the implementation's answers
-    let expected := lipSpec cfg (addrRaw arg)
+    -- "the parsed address" is the SPEC's reading (path grammar of Nq.Spec.SmtpAddr, lipSpec, literal limit), not the model's
+    let sstart := Nq.SmtpAddrSpec.specStart arg
+    let srest := Nq.SmtpAddrSpec.specRoute sstart.2
+    let slex := Nq.SmtpAddrSpec.lexTop sstart.1 srest.length srest
+    let expected := lipSpec cfg (Nq.SmtpAddrSpec.specPath arg)
+    if fresh then
+      st := st.bump (if sstart.1 == GTc then "A_spec_bracketed" else "A_spec_bracketless")
+      if srest != sstart.2 then st := st.bump "A_spec_route_stripped"
+      if slex.1.any (fun i => match i with | .quoted _ => true | _ => false) then st := st.bump "A_spec_quoted_string"
+      if slex.1.any (fun i => match i with | .esc _ => true | _ => false) then st := st.bump "A_spec_quoted_pair"
+      match slex.2 with
+      | .eos => st := st.bump "A_spec_end_eos"
+      | .term r => st := st.bump (if r.isEmpty then "A_spec_end_term" else "A_spec_end_term_junk")
+      | .bsl => st := st.bump "A_spec_end_lone_backslash"
+      | .openq _ d => st := st.bump (if d then "A_spec_end_open_quote_backslash" else "A_spec_end_open_quote")
     let bad : Option String :=
       if okS == "1" then
         if addr.length + 1 > addrLimit then some "address longer than the limit was accepted"
@@ -176,13 +192,59 @@ def pairs : List String → Option (List (Bytes × Bytes))
     some ((x, y) :: t)
   | _ => none
 
+/-- the event log of a session (`E` field): G<n>,W<n>,R<p>,C<i>,F<0>; `none` = unparsable.  Second component: some read
+found bytes sitting in ssout's buffer. -/
+def parseEvents (t : String) : Option (List Nq.SmtpFlush.FEv × Bool) :=
+  if t == "-" then some ([], false) else
+  (t.splitOn ",").foldl (fun acc tok =>
+    match acc with
+    | none => none
+    | some (l, bad) =>
+      match (tok.drop 1).toNat? with
+      | none => none
+      | some v =>
+        match tok.front with
+        | 'G' => some (l ++ [.gen v], bad)
+        | 'W' => some (l ++ [.wr v], bad)
+        | 'R' => some (l ++ [.rd], bad || v != 0)
+        | 'C' => some (l ++ [.cmd v], bad)
+        | 'F' => some (l ++ [.fl], bad)
+        | _ => none) (some ([], false))
+
+def smtpFlag (i : Nat) : Bool :=
+  match Gen.smtpCommands[i]? with
+  | some e => e.2.2
+  | none => Gen.smtpDefault.2
+
+/-- the handlers of qmail-smtpd as `SmtpFlush.Handler`: next state, number of reply bytes, exits? -/
+def smtpHandler (cfg : Cfg) (qq : QQ) : Nq.SmtpFlush.Handler Sess := fun s call =>
+  let c := lineCmd qq (verbAt call.1) call.2
+  let r := sstep cfg s c
+  (r.1, (r.2.replies.flatMap (render cfg)).length, r.2.halt)
+
+def showMarks (ms : List Nq.SmtpFlush.Mark) : String :=
+  ",".intercalate (ms.map (fun m => match m with | .rd w => s!"R@{w}" | .fl w => s!"F@{w}" | .cmd i => s!"C{i}"))
+
+/-- some handler returned while reply bytes were still buffered (pipelined replies) -/
+def deferred : Nat → List Nq.SmtpFlush.FEv → Bool
+  | _, [] => false
+  | out, .gen n :: r => deferred (out + n) r
+  | out, .wr n :: r => deferred (out - n) r
+  | _, .rd :: r => deferred 0 r
+  | _, .fl :: r => deferred 0 r
+  | out, .cmd _ :: r => out > 0 || deferred out r
+
 def handleS (ds : DState) (st : Stats) (cfgid chunk inh exitS replyh nsubS : String) (rest0 : List String) : IO Stats := do
-  let (rest, dpart) := rest0.span (· != "D")
+  let (rest, dpart0) := rest0.span (· != "D")
+  let (dpart, epart) := dpart0.span (· != "E")
+  let ievs : Option (List Nq.SmtpFlush.FEv × Bool) := match epart with
+    | [_, t] => parseEvents t
+    | _ => none
   let icalls : Option (List (Nat × Bytes)) := match dpart with
     | _ :: n :: cs => (parseCalls cs).bind (fun l => if n.toNat? == some l.length then some l else none)
     | _ => none
-  match unhex inh, unhex replyh, pairs rest, icalls with
-  | some inp, some replies, some envs, some icalls =>
+  match unhex inh, unhex replyh, pairs rest, icalls, ievs with
+  | some inp, some replies, some envs, some icalls, some (ievs, readWithPending) =>
     let cfg := ds.cfg
     let h := hashBytes (inp ++ [0] ++ ds.cfgid.toUTF8.toList)
     let fresh := !st.seen.contains h
@@ -213,21 +275,36 @@ def handleS (ds : DState) (st : Stats) (cfgid chunk inh exitS replyh nsubS : Str
     if trIO != tr then
       IO.println s!"DISAGREE mode=S cfg={cfgid} chunk={chunk} in={inh} what=runIO_over_substdio_differs_from_the_C_session events={trIO.length} vs {tr.length}"
       st := { st with disagree := st.disagree + 1 }
+    -- flush discipline: the model's reads / flush callbacks / handler returns, each read and flush with the bytes written so far
+    let reachesBlast := tr.any (fun x => x.2.replies.contains .go)
+    if reachesBlast then st := st.bump "S_flush_skipped_data_354"
+    else
+      let mevs := Nq.SmtpFlush.cmdsEv smtpTexts smtpFlag (smtpHandler cfg ds.qq) 512 ({} : Sess) (SmtpIO.istart ds.bufsize inp rs) (banner cfg).length
+      st := st.bump "S_flush_compared"
+      let nrd := (mevs.filter (· == .rd)).length
+      st := st.bump ("S_flush_reads_" ++ (if nrd ≤ 1 then "1" else if nrd ≤ 4 then "2to4" else "5plus"))
+      if deferred 0 mevs then st := st.bump "S_flush_reply_deferred_past_handler"
+      if Nq.SmtpFlush.marks 0 mevs != Nq.SmtpFlush.marks 0 ievs then
+        IO.println s!"DISAGREE mode=S cfg={cfgid} chunk={chunk} in={inh} what=flush_events impl={showMarks (Nq.SmtpFlush.marks 0 ievs)} model={showMarks (Nq.SmtpFlush.marks 0 mevs)}"
+        st := { st with disagree := st.disagree + 1 }
     -- oracle: the sequencing and gating predicates on the implementation's own trace
     let gs := replyGroups (replyLines [] replies) []
     let (itr, left, scalls) := match gs with
       | _banner :: gs' => rebuild cfg inp gs' envs [] []
       | [] => ([], envs, [])
     let bad : Option String :=
-      if !left.isEmpty then some s!"{left.length} envelope(s) handed to the queue without a DATA answered 354"
+      if readWithPending then some "a read of the connection was issued while reply bytes were still in the output buffer"
+      else if !Nq.SmtpFlush.disciplinedB 0 ievs then
+        some s!"reply bytes withheld: at a read of the connection or after a flush callback not everything generated so far had been written (events {showMarks (Nq.SmtpFlush.marks 0 ievs)})"
+      else if !left.isEmpty then some s!"{left.length} envelope(s) handed to the queue without a DATA answered 354"
       else if icalls != scalls then
         some s!"commands() dispatched {showCalls icalls} but the lines of the input (message bodies skipped) split by the spec are {showCalls scalls}"
       else if let some i := traceBadDoc cfg [] itr 0 then
         some s!"command #{i} RCPT: the answer is not the one the documented badmailfrom/rcpthosts/RELAYCLIENT rules give"
-      else match traceBad cfg [] itr 0 with
+      else match traceBadS cfg [] itr 0 with
         | some i =>
           match itr[i]? with
-          | some (.rcpt arg, o) => some s!"command #{i} RCPT arg={hex arg} answered250={o.replies == [.rcptok]} but the gate predicate says {gateOKB cfg (itr.take i) arg}"
+          | some (.rcpt arg, o) => some s!"command #{i} RCPT arg={hex arg} answered250={o.replies == [.rcptok]} but the gate predicate (parsed address = the path grammar's) says {gateOKBS cfg (itr.take i) arg}"
           | some (_, o) =>
             match o.submit with
             | some sub => some s!"command #{i} DATA submitted sender={hex sub.sender} rcpts={hex (encRcpts sub.rcpts)}, which is not the open transaction"
@@ -241,7 +318,7 @@ def handleS (ds : DState) (st : Stats) (cfgid chunk inh exitS replyh nsubS : Str
       IO.println s!"SAMPLE mode=S cfg={cfgid} chunk={chunk} in={inh} replies={replyh} envelopes={",".intercalate rest}"
       st := { st with samples := st.samples + 1 }
     return st
-  | _, _, _, _ => IO.println s!"DISAGREE unparsable S line"; return { st with disagree := st.disagree + 1 }
+  | _, _, _, _, _ => IO.println s!"DISAGREE unparsable S line"; return { st with disagree := st.disagree + 1 }
 
 /-- bytes the scripted descriptor hands over before its first failing read (`none`: no failing read is reached) -/
 def deliveredBeforeError (total req : Nat) : List Nat → Nat → Option Nat
